@@ -38,13 +38,16 @@ impl CaseIo for Case {
     }
 }
 
-const V1_ELEMENTS: &[&str] = &["keyword", "protocol", "source-address", "destination-address", "source-port", "destination-port", "after-cr", "length", "utf8"];
+const V1_ELEMENTS: &[&str] = &["keyword", "protocol", "source-address", "destination-address", "source-port", "destination-port", "after-cr", "length", "utf8", "protocol-of-other-family"];
 
 /// Does the kind of this v1 error name the element?
 fn v1_kind_ok(element: &str, e: &P1) -> bool {
     match element {
         "keyword" => matches!(e, P1::InvalidPrefix),
         "protocol" => matches!(e, P1::InvalidProtocol),
+        // the protocol keyword replaced by the other family's (valid as a word, invalid for this line): the error names the
+        // replaced element or the first field that no longer fits it
+        "protocol-of-other-family" => matches!(e, P1::InvalidProtocol | P1::InvalidSourceAddress(_)),
         "source-address" => matches!(e, P1::InvalidSourceAddress(_)),
         "destination-address" => matches!(e, P1::InvalidDestinationAddress(_)),
         "source-port" => matches!(e, P1::InvalidSourcePort(_)),
@@ -59,6 +62,7 @@ fn v1_expected(element: &str) -> &'static str {
     match element {
         "keyword" => "InvalidPrefix",
         "protocol" => "InvalidProtocol",
+        "protocol-of-other-family" => "InvalidProtocol or InvalidSourceAddress(_)",
         "source-address" => "InvalidSourceAddress(_)",
         "destination-address" => "InvalidDestinationAddress(_)",
         "source-port" => "InvalidSourcePort(_)",
@@ -82,6 +86,7 @@ pub fn judge_v1(c: &Case, st: &mut Stats) -> Verdict {
     };
     let consistent = match c.element.as_str() {
         "keyword" | "protocol" => reason == "keyword-or-protocol",
+        "protocol-of-other-family" => reason == "source-address",
         "source-address" | "destination-address" | "source-port" | "destination-port" => reason == c.element,
         "after-cr" => reason == "cr-not-followed-by-lf",
         "length" => reason == "too-long",
@@ -270,6 +275,10 @@ pub fn gen_v1(t: &mut Tape) -> Case {
             element = *t.pick(&["after-cr", "keyword", "protocol"]);
         }
     }
+    if element == "protocol-of-other-family" {
+        // both addresses stay valid literals of their own family; only the keyword changes
+        p.proto = if v6 { b"TCP4".to_vec() } else { b"TCP6".to_vec() };
+    }
     let unknown_base = p.proto == b"UNKNOWN";
     match element {
         "keyword" if t.chance(1, 3) => {
@@ -396,6 +405,7 @@ pub fn gen_v1(t: &mut Tape) -> Case {
             line.extend_from_slice(b"\r\n");
             return Case { input: line, element: element.to_string(), base: None };
         }
+        "protocol-of-other-family" => {}
         _ => {
             // invalid UTF-8 inside the line (UNKNOWN text, or inside a field)
             let mut line = if !unknown_base && t.coin() { b"PROXY UNKNOWN some text".to_vec() } else { let l = p.render(); l[..l.len() - 2].to_vec() };
@@ -413,7 +423,7 @@ pub fn gen_v1(t: &mut Tape) -> Case {
         input.extend(gen::gen_trailer(t, false).0);
     }
     // the TCP base line is kept for the field faults (the UNKNOWN bases differ from `base_line`)
-    let base = if !unknown_base && matches!(element, "source-address" | "destination-address" | "source-port" | "destination-port" | "after-cr" | "keyword" | "protocol") { Some(base_line) } else { None };
+    let base = if !unknown_base && matches!(element, "source-address" | "destination-address" | "source-port" | "destination-port" | "after-cr" | "keyword" | "protocol" | "protocol-of-other-family") { Some(base_line) } else { None };
     Case { input, element: element.to_string(), base }
 }
 
